@@ -244,6 +244,13 @@ def run_shard(cfg):
     return acc
 
 
+def shrink_candidates(case):
+    """smaller molecules of the same kind (fewer units / end groups, lists and weights removed), still inside the domain"""
+    from ..shrink import mol_candidates
+    for ast, text in mol_candidates(case["ast"], need_well_posed=False):
+        yield {**case, "ast": ast, "text": text}
+
+
 def replay(case, rec):
     acc = Acc()
     check(acc, Mol.from_json(case["ast"]), case["sz"], case.get("rebuild", False))
